@@ -235,6 +235,35 @@ def run_shard(spec):
                                  "program": prog, "config": cfg})
                     continue
                 judge_accessors(reachable_objects(case.machine), "after_solve_returned_None", counters, sig, viol, prog)
+    # (b') a model that WAS solved and then has no finite optimum any more: the re-solve returns None and every
+    #      object of the model (incl. constraints / LMIs attached to functions) behaves as never solved
+    for tag, prog in items:
+        rng = random.Random("c16re/%s/%s" % (spec.get("seed", 0), tag))
+        if rng.random() > 0.6:
+            continue
+        case = driver.run_case(prog, {"wrapper": "cvxpy", "solver": "CLARABEL", "verbose": 0, "mode": "dual"})
+        if case.outcome[0] != "ok" or case.outcome[1] is None:
+            continue
+        pep = case.machine.pep
+        pep.list_of_constraints = []                 # drops initial conditions and boxes: no finite optimum any more
+        from PEPit.function import Function
+        for f_ in Function.list_of_functions:
+            f_.list_of_constraints = [c for c in f_.list_of_constraints if "inexact" in str(c.get_name()) or "linesearch" in str(c.get_name())]
+        n0 = len(bd.records)
+        with contextlib.redirect_stdout(io.StringIO()):
+            out = case.machine.do_solve({"verbose": 0, "solver": "CLARABEL"})
+        if out[0] != "ok" or out[1] is not None or len(bd.records) <= n0:
+            counters["resolve_still_finite_or_error"] = counters.get("resolve_still_finite_or_error", 0) + 1
+            continue
+        counters["failed_resolves_judged"] = counters.get("failed_resolves_judged", 0) + 1
+        from PEPit.constraint import Constraint
+        from PEPit.psd_matrix import PSDMatrix
+        objs = [(src, o) for (src, o) in reachable_objects(case.machine)
+                if not (src == "reg" and isinstance(o, (Constraint, PSDMatrix)))]
+        # LMIs / constraints attached to functions and sent at this solve
+        for k_, o_, t_ in bd.records[n0]["sent"]:
+            objs.append(("sent_at_failed_resolve", o_))
+        judge_accessors(objs, "after_failed_resolve", counters, sig, viol, prog)
     # (c) invalid options on bounded models
     bad_opts = [{"return_primal_or_dual": "both"}, {"return_primal_or_dual": "Dual"}, {"return_primal_or_dual": None},
                 {"return_primal_or_dual": "both", "dimension_reduction_heuristic": "trace"},
